@@ -1,8 +1,8 @@
 //! C13: syllable <-> code <-> components <-> spelling.
-//!   vharness c13 views  <quick|thorough> <out>   implementation side of the views
-//!   vharness c13 oracle <quick|thorough> <out.json>  property oracles on the implementation
-//!   vharness c13 replay <string-of-scalars "12549,713">  parse/spell one string
-use crate::util::{catch, json_str};
+//!   c13 views  <quick|thorough> <out>   implementation side of the views
+//!   c13 oracle <quick|thorough> <out.json>  property oracles on the implementation
+//!   c13 replay <string-of-scalars "12549,713">  parse/spell one string
+use vharness::util::{catch, json_str};
 use chewing::zhuyin::{Bopomofo, Syllable, SyllableErrorKind};
 use std::collections::HashMap;
 use std::io::{BufWriter, Write};
@@ -336,13 +336,19 @@ fn replay(arg: &str) -> i32 {
     }
 }
 
-pub fn main(args: &[String]) -> i32 {
+fn main() {
+    let args: Vec<String> = std::env::args().skip(1).collect();
+    let code = run(&args);
+    std::process::exit(code);
+}
+
+fn run(args: &[String]) -> i32 {
     match args.first().map(|s| s.as_str()) {
         Some("views") => views(&args[1], &args[2]),
         Some("oracle") => oracle(&args[1], &args[2]),
         Some("replay") => replay(&args[1]),
         _ => {
-            eprintln!("usage: vharness c13 views|oracle|replay ...");
+            eprintln!("usage: c13 views|oracle|replay ...");
             2
         }
     }
